@@ -612,8 +612,9 @@ fn judge_eof_propagation(kept: &mut Vec<Popen>) {
         }
         // a child between fork and exec holds a copy of everything for an instant; only what
         // survives exec counts, so every pending child gets to exec before a verdict
+        // (one that sleeps there holds it for as long as it pleases: that one is left alone)
         let exec_pending = || {
-            let pending: Vec<i32> = sim().k.procs.values().filter(|c| c.state == PState::PreExec).map(|c| c.pid).collect();
+            let pending: Vec<i32> = sim().k.procs.values().filter(|c| c.state == PState::PreExec && c.preexec_wake.is_none()).map(|c| c.pid).collect();
             for c in pending {
                 sim().step_entity(Ent::Proc(c));
             }
@@ -635,9 +636,10 @@ fn judge_eof_propagation(kept: &mut Vec<Popen>) {
                 if w_open {
                     let h = holders(wdesc, -1);
                     let cross = h.iter().any(|(_, _, fb)| fb.is_some() && creator.is_some() && *fb != creator);
+                    let napping = h.iter().any(|(hp, _, _)| sim().k.procs.get(hp).map(|c| c.state == PState::PreExec && c.preexec_wake.is_some()).unwrap_or(false));
                     violate(
                         "eof_blocked_by_stranger",
-                        if cross { "eof_blocked_by_stranger/cause=concurrent_spawn_on_other_thread".to_string() } else { "eof_blocked_by_stranger/stream=stdin".to_string() },
+                        if napping { "eof_blocked_by_stranger/cause=forked_copy_sleeps_before_exec".to_string() } else if cross { "eof_blocked_by_stranger/cause=concurrent_spawn_on_other_thread".to_string() } else { "eof_blocked_by_stranger/stream=stdin".to_string() },
                         format!("the parent closed its end of child {}'s stdin, but the write end is still open in {:?}: the child cannot see end-of-file", pid, h),
                     );
                 }
@@ -657,9 +659,12 @@ fn judge_eof_propagation(kept: &mut Vec<Popen>) {
                 if w_open {
                     let h = holders(wdesc, pid);
                     let cross = h.iter().any(|(_, _, fb)| fb.is_some() && creator.is_some() && *fb != creator);
+                    let napping = h.iter().any(|(hp, _, _)| sim().k.procs.get(hp).map(|c| c.state == PState::PreExec && c.preexec_wake.is_some()).unwrap_or(false));
                     violate(
                         "eof_blocked_by_stranger",
-                        if cross { "eof_blocked_by_stranger/cause=concurrent_spawn_on_other_thread".to_string() } else { format!("eof_blocked_by_stranger/stream={}", name) },
+                        if napping {
+                            "eof_blocked_by_stranger/cause=forked_copy_sleeps_before_exec".to_string()
+                        } else if cross { "eof_blocked_by_stranger/cause=concurrent_spawn_on_other_thread".to_string() } else { format!("eof_blocked_by_stranger/stream={}", name) },
                         format!("child {} is gone but the write end of its {} pipe is still open in {:?}: the parent cannot see end-of-file", pid, name, h),
                     );
                 }
@@ -753,6 +758,7 @@ fn op_name(op: &ChildOp) -> &'static str {
         ChildOp::Exit { .. } => "_exit",
         ChildOp::Escaped { .. } => "escaped",
         ChildOp::Other { .. } => "other",
+        ChildOp::Sleep { .. } => "sleep",
     }
 }
 
@@ -1747,6 +1753,12 @@ pub fn generate(prop: &str, rng: &mut Rng, plan: &mut Plan, index: u64) {
             if index % 4 == 2 {
                 sp.threads = 2 + rng.below(2) as usize;
                 plan.knobs.personality = *rng.pick(&[crate::sim::Personality::Uniform, crate::sim::Personality::Bursty]);
+                // one of the launches fails at exec (a busy or unusable executable) while the other
+                // threads go about their pipes
+                if rng.chance(1, 3) {
+                    plan.knobs.faults.exec_errno = vec![(rng.below(n as u64) as u32, 0, *rng.pick(&[libc::ETXTBSY, libc::ETXTBSY, libc::EACCES, libc::ENOEXEC, libc::ENOMEM]))];
+                    plan.knobs.batch = "faulty".into();
+                }
             }
         }
     }
